@@ -23,6 +23,9 @@ def oStr (n : Str) (mm : MMode := .notNone) : OptStep := { field := n, key := n,
 /-- a list of WAMP session ids: `check_or_raise_id` on every item -/
 def oListId (n : Str) : OptStep := { field := n, key := n, ty := .listId }
 def oListStr (n : Str) : OptStep := { field := n, key := n, ty := .listStr }
+/-- a detail that is a concrete URI: `type(v) != str` → ProtocolError, then `check_or_raise_uri(v)` (EVENT.topic,
+INVOCATION.procedure) -/
+def oUri (n : Str) : OptStep := { field := n, key := n, ty := .strUri false }
 
 def payloadCross : List Cross := [.payloadBytes, .encTypes, .encTriple]
 
@@ -45,7 +48,8 @@ def welcome : Schema where
   code := code_Welcome
   pos := [.id cs!"session", .opts]
   opts := [
-    { field := cs!"realm", key := cs!"realm", ty := .strOrNull, cty := .strOrNone, mm := .truthy },
+    -- `details.get("realm")`, None or str (ProtocolError), then `check_or_raise_uri(realm, allow_none=True)`
+    { field := cs!"realm", key := cs!"realm", ty := .strUri true, cty := .strOrNone, mm := .truthy },
     { field := cs!"authid", key := cs!"authid", ty := .strOrNull, cty := .strOrNone, mm := .truthy },
     { field := cs!"authrole", key := cs!"authrole", ty := .strOrNull, cty := .strOrNone, mm := .truthy },
     { field := cs!"authmethod", key := cs!"authmethod", ty := .strOrNull, cty := .strOrNone, mm := .truthy },
@@ -136,7 +140,7 @@ def event : Schema where
   code := code_Event
   pos := [.id cs!"subscription", .id cs!"publication", .opts]
   tail := some { variant := .std }
-  opts := [oId cs!"publisher", oStr cs!"publisher_authid", oStr cs!"publisher_authrole", oStr cs!"topic",
+  opts := [oId cs!"publisher", oStr cs!"publisher_authid", oStr cs!"publisher_authrole", oUri cs!"topic",
            oBool cs!"retained", oStr cs!"transaction_hash", oBool cs!"x_acknowledged_delivery", ff ffFixed_Event]
   cross := payloadCross
 
@@ -210,7 +214,7 @@ def invocation : Schema where
   pos := [.id cs!"request", .id cs!"registration", .opts]
   tail := some { variant := .std }
   opts := [oInt cs!"timeout" (some 0), oBool cs!"receive_progress", oId cs!"caller", oStr cs!"caller_authid",
-           oStr cs!"caller_authrole", oStr cs!"procedure", oStr cs!"transaction_hash", ff ffFixed_Invocation]
+           oStr cs!"caller_authrole", oUri cs!"procedure", oStr cs!"transaction_hash", ff ffFixed_Invocation]
   cross := payloadCross
 
 def interrupt : Schema where
